@@ -12,7 +12,7 @@ R-TUPLEROLE the *_intersection / *_distance / *_iterations wrappers index the re
 import ast
 import itertools
 
-from ..core.astutil import u, call_name, calls, iter_stmts, const, disjuncts, conjuncts, index_elts, ncmp, strip_docstring, canon_inline
+from ..core.astutil import u, call_name, calls, iter_stmts, const, disjuncts, conjuncts, index_elts, ncmp, strip_docstring, canon_inline, sibling_verdict
 from ..core.index import AnalysisError
 
 N1 = "distance3d.gjk._gjk_nesterov_accelerated"
@@ -491,10 +491,10 @@ def r_mainloop(idx, rep, rule="R-MAINLOOP"):
         if not exempt(l[1:]):
             bad.append(l)
     key = "%s|same statements as %s" % (a.key, b.name)
-    rep.check(not bad, rule, key, a.where,
-              "the two Nesterov main loops diverge outside the known differences: %s (`-` generic variant, `+` primitives variant, local names shown as `_`) — one of "
-              "them was edited alone, so gjk_nesterov_accelerated_distance and gjk_nesterov_accelerated_primitives_distance no longer run the same algorithm" % bad[:4],
-              "%d / %d statement lines compared" % (len(la), len(lb)))
+    sibling_verdict(rep, rule, key, a.where, bad,
+                    "the two Nesterov main loops diverge outside the known differences: %s (`-` generic variant, `+` primitives variant, local names shown as `_`) — one of "
+                    "them was edited alone, so gjk_nesterov_accelerated_distance and gjk_nesterov_accelerated_primitives_distance no longer run the same algorithm" % bad[:4],
+                    "%d / %d statement lines compared" % (len(la), len(lb)), small=3)
     # and the plain (non-accelerated) momentum statements occur in both
     def mom(ls):
         return {t.strip() for t in ls if t.strip() in ("_ = (_ + 1) / (_ + 3)", MOM[1])}
@@ -542,7 +542,7 @@ def r_supportsibling(idx, rep, rule="R-SUPPORTSIBLING"):
             return n
 
     def shape(f):
-        node = _Data(f.params()[1]).visit(copy.deepcopy(f.node))
+        node = _Data(f.params()[1]).visit(canon_inline(f.node))
         L = {n.id for n in ast.walk(node) if isinstance(n, ast.Name) and isinstance(n.ctx, ast.Store)} | set(f.params())
         body = [s for s in node.body if not (isinstance(s, ast.Expr) and isinstance(s.value, ast.Constant))]
         txt = "\n".join(ast.unparse(s) for s in body)
@@ -552,6 +552,6 @@ def r_supportsibling(idx, rep, rule="R-SUPPORTSIBLING"):
         if fa is None or fb is None:
             raise AnalysisError("%s missing in one of the Nesterov files" % name)
         d = [l for l in difflib.unified_diff(shape(fa), shape(fb), lineterm="", n=0) if not l.startswith(("---", "+++", "@@"))]
-        rep.check(not d, rule, "%s|same shape as the primitives variant" % fa.key, fa.where,
-                  "%s differs between the generic and the primitives file beyond data access: %s (`-` generic, `+` primitives; names shown as `_`, shape data as DATA) — "
-                  "one copy was edited alone" % (name, d[:6]), "%d lines" % len(shape(fa)))
+        sibling_verdict(rep, rule, "%s|same shape as the primitives variant" % fa.key, fa.where, d,
+                        "%s differs between the generic and the primitives file beyond data access: %s (`-` generic, `+` primitives; names shown as `_`, shape data as DATA) — "
+                        "one copy was edited alone" % (name, d[:6]), "%d lines" % len(shape(fa)))
